@@ -3,10 +3,10 @@
    Level: proof of the value <-> serde data-model tree mapping of the DERIVED impls, generic in the
    schema, instantiated with the schema extracted from the source on every run; serde_yaml's text
    layer is an oracle tied in by the correspondence run (real save -> file -> load).  Partial in
-   that sense, and in that `is_valid` itself is not modelled (its result is carried by the case). *)
+   that sense.  `is_valid` is modelled (C41/Valid.v) and compared with the real one on every case. *)
 From Coq Require Import List ZArith Bool String.
 Import ListNotations.
-From OV Require Import C41.Schema Gen.C41Schema C41.SchemaProofs C41.Model C41.Proofs.
+From OV Require Import C41.Schema Gen.C41Schema C41.SchemaProofs C41.Erase C41.Model C41.Proofs.
 Open Scope list_scope.
 Open Scope Z_scope.
 
@@ -27,6 +27,19 @@ Theorem C41_generic_writes : forall sch, schema_ok sch = true ->
 Proof. exact ser_total. Qed.
 Print Assumptions C41_generic_writes.
 
+(* ... and for EVERY well-formed value, also one whose #[serde(skip)] fields are filled: the reader
+   applied to the written tree returns the value with exactly the skipped fields reset to None, at any
+   depth ([erase]); a value whose skipped fields are at their default is its own erasure *)
+Theorem C41_generic_reload_erases : forall sch, schema_ok sch = true ->
+  forall fuel t v y, ty_ok t = true -> wt sch false fuel t v = true ->
+  ser sch fuel t v = Some y -> de sch fuel t y = Some (erase sch fuel t v).
+Proof. exact reload_is_erase. Qed.
+Print Assumptions C41_generic_reload_erases.
+Theorem C41_erase_of_default_is_identity : forall sch fuel t v,
+  wt sch true fuel t v = true -> erase sch fuel t v = v.
+Proof. exact erase_strict. Qed.
+Print Assumptions C41_erase_of_default_is_identity.
+
 (* obligations on the schema of client/config.rs + server/config.rs as it is in the repository now *)
 Theorem C41_schema_obligations :
   schema_ok cfg_schema = true /\
@@ -46,6 +59,23 @@ Theorem C41_save_load_roundtrip : forall c, wt cfg_schema true FUEL (root c) (c_
   exists y, ser cfg_schema FUEL (root c) (c_val c) = Some y /\ de cfg_schema FUEL (root c) y = Some (c_val c).
 Proof. exact save_load_roundtrip. Qed.
 Print Assumptions C41_save_load_roundtrip.
+
+(* any well-formed client or server configuration (thumbprint caches filled or not) is written, and
+   what is read back is the configuration with the caches cleared: known finding 1, completely *)
+Theorem C41_save_load_erases : forall c, wt cfg_schema false FUEL (root c) (c_val c) = true ->
+  exists y, ser cfg_schema FUEL (root c) (c_val c) = Some y /\
+            de cfg_schema FUEL (root c) y = Some (erase cfg_schema FUEL (root c) (c_val c)).
+Proof. exact save_load_erases. Qed.
+Print Assumptions C41_save_load_erases.
+
+(* "... and is still valid": is_valid, as modelled in C41/Valid.v from ClientConfig::is_valid,
+   ServerConfig::is_valid and the token / endpoint / security-policy / security-mode functions they
+   call, says of the configuration read back from the file what it said of the original *)
+Theorem C41_loaded_still_valid : forall c y v', wt cfg_schema true FUEL (root c) (c_val c) = true ->
+  ser cfg_schema FUEL (root c) (c_val c) = Some y -> de cfg_schema FUEL (root c) y = Some v' ->
+  is_valid_m (c_kind c) v' = is_valid_m (c_kind c) (c_val c).
+Proof. exact loaded_still_valid. Qed.
+Print Assumptions C41_loaded_still_valid.
 
 Theorem C41_oracle : forall c, valid c -> known c = 0 -> oracle c (run c) = true.
 Proof. exact oracle_holds. Qed.
